@@ -51,6 +51,7 @@ def check(ctx):
     c03.r03_7(ctx)
     c03.r03_4(ctx, None)
     c01.r01_8(ctx)
+    c01.r01_9(ctx, m)
     # "every optional field ... unchanged": the parser must accept the whole tag grammar (shared with C16)
     pf, loop = tag_loop(ctx, "R16.1")
     info16 = tag_regex_info(pf, loop, "R16.1")
